@@ -37,6 +37,7 @@ def plan(tier):
     for d in (False, True):
         pl.units.append(U("RB.updated.%s" % ("disabled" if d else "enabled"), "contracts.readback", "h_updated_readback", (d,),
                           native_ok=True, sample_models=True))
+    pl.static = [lambda: common.shape_selftest_obs(PID)]
     pl.bounded = [bounded_readback]
     pl.functions = [("sievelib.factory", "FiltersSet.get_filter_conditions"), ("sievelib.factory", "FiltersSet.get_filter_actions"),
                     ("sievelib.factory", "FiltersSet.get_filter_matchtype"), ("sievelib.factory", "FiltersSet.getfilter"),
